@@ -5,7 +5,8 @@ import OdxVerif.Proofs.CompReject2Described
     `Obj` — `A_INT32` (four encodings), `A_UINT32`, `A_FLOAT64`, `A_FLOAT32`, `A_BYTEFIELD`, `A_ASCIISTRING` (ISO-8859-1),
     `A_UTF8STRING`, `A_UNICODE2STRING` (UCS-2), BCD (packed / unpacked) — with or without PHYSICAL-DEFAULT-VALUE, at every
     nesting depth of structures (with or without BYTE-SIZE) ∘ static / dynamic-length / END-OF-PDU fields (items with or without
-    BYTE-SIZE) ∘ multiplexers, plus LEADING-LENGTH-INFO-TYPE leaves over `A_BYTEFIELD` (class `DescribedP2`,
+    BYTE-SIZE) ∘ multiplexers, plus LEADING-LENGTH-INFO-TYPE leaves and (in last position, ended by the end of the PDU)
+    MIN-MAX-LENGTH-TYPE leaves over `A_BYTEFIELD` (class `DescribedP2`,
     `Proofs/CompReject2Described.lean`).  One rejection lemma covers all kinds: `Obj.rejectsW` (`Proofs/CompReject2Leaf.lean`).
 
     **Hypothesis `wfAtoms`** (explicit, decidable, a condition on the INPUT that every Python value meets): the bytes of every
@@ -390,8 +391,57 @@ example : ∃ cursor, decodeMessage none (PDescs.toParams lDesc) [0x2E, 3, 0xA1,
     obtain ⟨cursor, hdec⟩ := hrt hw (fun h => by cases h)
     exact ⟨cursor, hdec⟩
 
+/-! ## non-vacuity, MIN-MAX-LENGTH-TYPE over A_BYTEFIELD ended by the end of the PDU
+    request = [ sid; a; mm : MIN-MAX-LENGTH-TYPE, MIN-LENGTH 1, MAX-LENGTH 3, TERMINATION ZERO — last parameter ] -/
+def mSh : MMShape := { name := "mm", bytePos := none, enc := none, hl := true, minLen := 1, maxLen := some 3, term := .zero }
+def mDesc : List PDesc := [PDesc.ofObjConst ⟨"sid", none, none, none, true, 8, .uint32⟩ (.int 0x2E), pu8 "a", PDesc.ofMinMaxLastBytes mSh]
+def mMk (x : PVal) : PVal := .dict [("a", .atom (.int 7)), ("mm", x)]
+
+theorem mDesc_described : ∀ p ∈ mDesc, DescribedP2 p := by
+  intro g hg
+  simp only [mDesc, List.mem_cons, List.mem_nil_iff, or_false] at hg
+  rcases hg with rfl | rfl | rfl
+  · exact DescribedP2.const _ _ (by simp [Obj.ok, Obj.encOk, Obj.sizeOk]) (by simp [Obj.inRange])
+  · exact described_pu8' _
+  · exact DescribedP2.minmaxLastBytes mSh (Or.inl rfl)
+
+theorem mDesc_names : PDescs.namesOk mDesc ∧ PDescs.eopLast mDesc := by
+  refine ⟨?_, ⟨rfl, rfl, trivial⟩⟩
+  simp [PDescs.namesOk, mDesc, PDesc.name, Param.name, PDesc.ofObjConst, Obj.toConstParam, PDesc.ofMinMaxLastBytes, MMShape.leaf,
+    MMLeaf.toParam, mSh, pu8, PDesc.ofObjValue, Obj.toParam]
+
+/-- accepted (no terminator at the end of the PDU; a zero byte BEFORE MIN-LENGTH is no terminator); rejected with `EncodeError`:
+    shorter than MIN-LENGTH, longer than MAX-LENGTH, a terminator inside the value, a string, omission -/
+example : [mMk (.atom (.bytes [5])), mMk (.atom (.bytes [0, 1, 2]))].map (fun p =>
+      (p.wfAtoms && p.typedForP mDesc && p.acceptedByP mDesc, p.endCursor mDesc,
+       (encodeMessage none (PDescs.toParams mDesc) p none true).toOption)) =
+    [(true, 3, some ([0x2E, 7, 5], 0)), (true, 5, some ([0x2E, 7, 0, 1, 2], 0))] := by decide +kernel
+example : [mMk (.atom (.bytes [])), mMk (.atom (.bytes [1, 2, 3, 4])), mMk (.atom (.bytes [1, 0, 2])), mMk (.atom (.str [0x41])),
+      .dict [("a", .atom (.int 7))]].all (fun p =>
+      p.wfAtoms && p.typedForP mDesc && p.acceptedByP mDesc == false && decide (p.needFor mDesc ≤ modelFuel) &&
+      errClass (encodeMessage none (PDescs.toParams mDesc) p none true) == some .encode) = true := by decide +kernel
+/-- the theorem applies (the END-OF-PDU side condition holds: the encoder's cursor ends at the end of the PDU) -/
+example : ∃ cursor, decodeMessage none (PDescs.toParams mDesc) [0x2E, 7, 0, 1, 2] true =
+    .ok (.dict (PDescs.complete mDesc [("a", .atom (.int 7)), ("mm", .atom (.bytes [0, 1, 2]))]), cursor) := by
+  rcases C04_nested mDesc mDesc_described mDesc_names.1 mDesc_names.2 (mMk (.atom (.bytes [0, 1, 2]))) (by decide +kernel) none
+    (by decide +kernel) (by decide +kernel) with ⟨e, he, _⟩ | ⟨kvs, pdu, w, hkvs, _, henc, hrt⟩
+  · have : (encodeMessage none (PDescs.toParams mDesc) (mMk (.atom (.bytes [0, 1, 2]))) none true).toOption = none := by rw [he]; rfl
+    exact absurd this (by decide +kernel)
+  · have h2 : (encodeMessage none (PDescs.toParams mDesc) (mMk (.atom (.bytes [0, 1, 2]))) none true).toOption = some (pdu, w) := by
+      rw [henc]; rfl
+    have h4 : (encodeMessage none (PDescs.toParams mDesc) (mMk (.atom (.bytes [0, 1, 2]))) none true).toOption
+        = some ([0x2E, 7, 0, 1, 2], 0) := by decide +kernel
+    rw [h2] at h4
+    simp only [Option.some.injEq, Prod.mk.injEq] at h4
+    obtain ⟨hp, hw⟩ := h4
+    subst hp
+    cases hkvs
+    obtain ⟨cursor, hdec⟩ := hrt hw (fun _ => by decide +kernel)
+    exact ⟨cursor, hdec⟩
+
 /-! ## the round-6 kinds outside the value-free class
-    DYNAMIC-ENDMARKER-FIELD, MATCHING-REQUEST-PARAM and MIN-MAX-LENGTH leaves in a position where a terminator is written have
+    DYNAMIC-ENDMARKER-FIELD, MATCHING-REQUEST-PARAM and MIN-MAX-LENGTH leaves that are not the last parameter (terminator written
+    iff `is_end_of_pdu` is cleared) have
     components relative to the encoder STATE (`OkM` / `TopInv` of `Proofs/CompExt*.lean`), which an acceptance function
     `Option PVal → Option Comp` does not see; for them: the positive direction is `C01_roundtrip_nested2`
     (`Props/C01Nested2.lean`, with `EmLayout.miss` for every item of an end-marker field), the negative facts are below. -/
